@@ -9,6 +9,146 @@ FUNCS = ['yalafi.mathparser.MathParser.' + n for n in ('expand_display_math', 'e
 def SELECT(name):
     return not cm.is_safety(name)
 
+def display_small_documents(seed):
+    """structural sentence of the property on enumerated small equations
+    (the deductive part does not decide row structure and punctuation):
+    environments equation / align / \\[..\\] / $$..$$, 1-3 rows from a
+    catalogue, optional final mark, optionally followed by \\label, a
+    trailing \\\\ or \\nonumber; languages en/de/ru; checks: one output
+    line per row, the final mark kept at the end of the last line, nothing
+    but placeholders of the display collection, operator words, blanks and
+    marks; simple mode: exactly one placeholder plus the mark"""
+    import itertools
+    import re
+    from pyvc import replay as _r
+    t2t = _r.real_module('yalafi.tex2txt')
+    parameters = _r.real_module('yalafi.parameters')
+    rows = ['a = b', 'a &= b + c', '&\\le c', 'x^2', 'a + b &= c']
+    tails = ['', '\\label{q}', '\\nonumber', ' \\\\']
+    n, fails = 0, []
+
+    def fail(**kw):
+        fails.append(kw)
+        return len(fails) >= 3
+    for lang in ('en', 'de', 'ru'):
+        lc = parameters.Parameters(lang).lang_context
+        coll = set(lc.math_repl_display)
+        words = set(lc.math_op_text.values())
+        for env in ('equation', 'align', 'brackets', 'dollars'):
+            for nr in (1, 2, 3):
+                if nr > 1 and (env != 'align' or lang != 'en'):
+                    continue
+                for combo in itertools.product(range(len(rows)), repeat=nr):
+                    if nr == 3 and (sum(combo) + seed) % 5:
+                        continue
+                    if env != 'align' and '&' in rows[combo[0]]:
+                        continue
+                    for mark in ('', '.', ',', ';', ':'):
+                        for tail in tails:
+                            if tail == ' \\\\' and env != 'align':
+                                continue
+                            body = ' \\\\\n'.join(rows[i] for i in combo)
+                            body += mark + tail
+                            if env == 'brackets':
+                                eq = '\\[ ' + body + ' \\]'
+                            elif env == 'dollars':
+                                eq = '$$ ' + body + ' $$'
+                            else:
+                                eq = '\\begin{%s}\n%s\n\\end{%s}' % (
+                                    env, body, env)
+                            src = 'Aaa\n' + eq + '\nBbb'
+                            for seqs in (False, True):
+                                n += 1
+                                try:
+                                    got = t2t.tex2txt(src, t2t.Options(
+                                        lang=lang, seqs=seqs,
+                                        pack='amsmath'))[0]
+                                except Exception as e:      # noqa
+                                    if fail(input=src, why=repr(e)):
+                                        return _res(n, fails)
+                                    continue
+                                m = re.fullmatch(r'Aaa\n((?:.|\n)*)\nBbb', got)
+                                if not m:
+                                    if fail(input=src, seqs=seqs, got=got,
+                                            why='frame'):
+                                        return _res(n, fails)
+                                    continue
+                                lines = m.group(1).split('\n')
+                                rest = m.group(1)
+                                phs = re.findall(r'\S+-\S+-\S+', rest)
+                                for ph in phs:
+                                    rest = rest.replace(
+                                        ph.rstrip('.,;:'), ' ', 1)
+                                for w in sorted(words, key=len,
+                                                reverse=True):
+                                    rest = rest.replace(w, ' ')
+                                why = None
+                                if any(ph.rstrip('.,;:') not in coll
+                                       for ph in phs):
+                                    why = 'placeholder not from the ' \
+                                        'display collection'
+                                elif rest.strip(' \n.,;:'):
+                                    why = 'other characters: %r' % rest
+                                elif mark and not lines[-1].rstrip(
+                                        ).endswith(mark):
+                                    why = 'final mark lost'
+                                elif seqs and not (
+                                        len(lines) == 1 and len(phs) == 1
+                                        and lines[0].strip() ==
+                                        phs[0].rstrip('.,;:') + mark):
+                                    why = 'simple mode: not one ' \
+                                        'placeholder plus mark'
+                                elif not seqs and tail != ' \\\\' and \
+                                        len(lines) != nr:
+                                    why = '%d lines for %d rows' % (
+                                        len(lines), nr)
+                                if why and fail(lang=lang, input=src,
+                                                seqs=seqs, got=got,
+                                                why=why):
+                                    return _res(n, fails)
+    # multi-language mode: the word for a leading operator is that of the
+    # language in force at the equation
+    settings = parameters.Parameters('en').parser_lang_settings
+    src = ('\\usepackage{amsmath}\\usepackage[english,german,russian]'
+           '{babel}\nAaa\n\\begin{align}\na &= b \\\\\n&\\cdot c.\n'
+           '\\end{align}\n\\selectlanguage{german}\nBbb\n'
+           '\\begin{align}\na &= b \\\\\n&\\cdot c \\\\\n&/ d.\n'
+           '\\end{align}\n\\selectlanguage{russian}\nCcc\n'
+           '\\begin{align}\na &= b \\\\\n&- c.\n\\end{align}\n')
+    n += 1
+    try:
+        ml = t2t.tex2txt(src, t2t.Options(lang='en', pack='amsmath,babel'),
+                         multi_language=True)
+        for code, txt in ((c, ''.join(p[0] for p in parts))
+                          for c, parts in ml.items()):
+            key = code[:2].lower()
+            own = set(settings[key].math_op_text.values())
+            other = set()
+            for k2, ls in settings.items():
+                if k2 != key:
+                    other |= set(ls.math_op_text.values())
+            found = set(re.findall(r'[^\W\d_]{3,}', txt)) - \
+                {'Aaa', 'Bbb', 'Ccc'}
+            alien = sorted(w for w in found if w in other - own)
+            if alien or not (found & own):
+                fail(input=src, part=code, text=txt,
+                     why='operator words of another language: %r' % alien)
+    except Exception as e:      # noqa
+        fail(input=src, why=repr(e))
+    return _res(n, fails)
+
+
+def _res(n, fails):
+    return {'name': 'displayed-equations-on-small-documents',
+            'bounded': True,
+            'bound': '4 environments x 5 row bodies x 5 marks x 4 tails x simple '
+                     'mode on/off in 3 languages for one row; align with 2 '
+                     'rows and a fifth of the 3-row cases in English',
+            'evaluations': n, 'failures': fails}
+
+
+QUICK_BOUNDED = [display_small_documents]
+
 TRUSTED = cm.TRUSTED_CORE
 ASSUMPTIONS = cm.ASSUME_CORE + ['known finding F15 applies to expand_math_section']
 LEVEL_TEXT = 'Proves for expand_display_math: the punctuation mark kept in simple-equations mode and for removed environments is taken from the text of the rendered output list (call-site precondition of get_text_direct), the row/section loop keeps ParserInv and BufInv, every token appended (blank after &, line break after \\\\\\\\, placeholders, operator words, punctuation) is a fresh fixed token inside the source at the position of a token of the equation, the simple-equations branch and the env.remove branch build their output from positions of the equation only; index safety of out[-1] and repls[0]. NOT proved: one output line per row, advance of placeholders at the documented points.'
